@@ -994,7 +994,7 @@ func fieldPathKey(v ssa.Value, site ssa.Instruction, depth int) (string, bool) {
 			if !ok || fa.Field != field || canon(fa.X) != canon(base) {
 				return
 			}
-			if !dominates(site, st) {
+			if mayPrecede(st, site) {
 				bad = true // may execute before the site
 			}
 		})
@@ -1664,4 +1664,18 @@ func pushedUnresolved(p *Prog, ap *ssa.Call) string {
 		}
 	}
 	return ""
+}
+
+// mayPrecede: some execution runs a before b (a earlier in b's block, or a path
+// leads from a's block to b's).
+func mayPrecede(a, b ssa.Instruction) bool {
+	if a.Block() == b.Block() && instrIndex(a) < instrIndex(b) {
+		return true
+	}
+	for _, s := range a.Block().Succs {
+		if reachFromBlock(s)[b.Block()] {
+			return true
+		}
+	}
+	return false
 }
